@@ -79,6 +79,22 @@ pub ghost struct Item { pub fmt: Seq<char>, pub args: Seq<FmtVal>, pub nl: bool 
 pub struct FmtArg { _p: u8 }
 impl FmtArg { pub uninterp spec fn v(&self) -> FmtVal; }
 pub open spec fn vals(a: Seq<FmtArg>) -> Seq<FmtVal> { Seq::new(a.len(), |i: int| a[i].v()) }
+// `vals` of a short list written with seq![..] (sequence equality is extensional: proved below, repeated in the contracts of emit / fmt_str
+// so that every call site has it without a hint)
+pub open spec fn vals_canonical(a: Seq<FmtArg>) -> bool {
+    &&& (a.len() == 0 ==> vals(a) == Seq::<FmtVal>::empty())
+    &&& (a.len() == 1 ==> vals(a) == seq![a[0].v()])
+    &&& (a.len() == 2 ==> vals(a) == seq![a[0].v(), a[1].v()])
+    &&& (a.len() == 3 ==> vals(a) == seq![a[0].v(), a[1].v(), a[2].v()])
+    &&& (a.len() == 4 ==> vals(a) == seq![a[0].v(), a[1].v(), a[2].v(), a[3].v()])
+}
+pub proof fn lemma_vals_canonical(a: Seq<FmtArg>) ensures vals_canonical(a) {
+    if a.len() == 0 { assert(vals(a) =~= Seq::<FmtVal>::empty()); }
+    if a.len() == 1 { assert(vals(a) =~= seq![a[0].v()]); }
+    if a.len() == 2 { assert(vals(a) =~= seq![a[0].v(), a[1].v()]); }
+    if a.len() == 3 { assert(vals(a) =~= seq![a[0].v(), a[1].v(), a[2].v()]); }
+    if a.len() == 4 { assert(vals(a) =~= seq![a[0].v(), a[1].v(), a[2].v(), a[3].v()]); }
+}
 #[verifier::opaque]
 pub open spec fn item(fmt: Seq<char>, args: Seq<FmtVal>, nl: bool) -> Item { Item { fmt, args, nl } }
 
@@ -101,7 +117,7 @@ pub uninterp spec fn fmt_text(fmt: Seq<char>, args: Seq<FmtVal>) -> Seq<char>;
 pub uninterp spec fn exp_text(fmt: Seq<char>, v: FmtVal) -> Seq<char>;
 #[verifier::external_body]
 pub fn fmt_str(fmt: &str, args: &[FmtArg]) -> (r: String)
-    ensures r@ == fmt_text(fmt@, vals(args@)), forall|a: Seq<FmtVal>| a =~= vals(args@) ==> r@ == #[trigger] fmt_text(fmt@, a),
+    ensures r@ == fmt_text(fmt@, vals(args@)), vals_canonical(args@),     // the latter is not an assumption: lemma_vals_canonical
 { unimplemented!() }
 #[verifier::external_body]
 pub fn fmt_exp(fmt: &str, v: FmtArg) -> (r: String) ensures r@ == exp_text(fmt@, v.v()) { unimplemented!() }
@@ -125,8 +141,7 @@ impl PrintTarget {
     pub fn emit(&mut self, fmt: &str, args: &[FmtArg], nl: bool) -> (r: std::io::Result<()>)
         ensures final(self).kind() == old(self).kind(),
             r is Ok ==> final(self).items() == old(self).items().push(item(fmt@, vals(args@), nl)),
-            // the same, for every way of writing the argument list (sequence equality is extensional)
-            r is Ok ==> forall|a: Seq<FmtVal>| a =~= vals(args@) ==> final(self).items() == old(self).items().push(#[trigger] item(fmt@, a, nl)),
+            vals_canonical(args@),     // not an assumption: lemma_vals_canonical
     { unimplemented!() }
     #[verifier::external_body]
     pub fn flush(&mut self) -> (r: std::io::Result<()>)
@@ -491,8 +506,16 @@ impl DefaultInfo<F> {
         r is Ok ==> final(self).stream.items() == old(self).stream.items() + settings_block(*settings, old(self).linsolver),
 //@pre
     proof { ax_float_size(); }
+    let ghost it0 = self.stream.items();
+    let ghost ls = self.linsolver;
+    let ghost mut g1 = it0;
+//@after_stmt 7
+    proof { g1 = out.items(); assert(g1 =~= it0 + (settings_head(ls) + threads_part(ls.threads))); }
 //@post
-    proof { assert(self.stream.items() =~= old(self).stream.items() + settings_block(*settings, old(self).linsolver)); }
+    proof {
+        assert(self.stream.items() =~= g1 + settings_tail(*settings));
+        assert(self.stream.items() =~= it0 + settings_block(*settings, ls));
+    }
 //@end
 
 //@fn file=src/solver/implementations/default/info_print.rs in="impl<T> InfoPrint<T> for DefaultInfo<T>" name=print_configuration rules=R1,R2,R1f,wfmt ret=r
@@ -502,8 +525,25 @@ impl DefaultInfo<F> {
         !settings.verbose ==> r is Ok && final(self).stream.items() == old(self).stream.items(),
         settings.verbose && r is Ok ==> final(self).stream.items()
             == old(self).stream.items() + configuration_items(*settings, *data, cones.cones@, old(self).linsolver),
+//@pre
+    let ghost it0 = self.stream.items();
+    let ghost ls = self.linsolver;
+    let ghost cs = cones.cones@;
+    let ghost mut g1 = it0; let ghost mut g2 = it0; let ghost mut g3 = it0; let ghost mut g4 = it0;
+//@after_stmt 3
+    proof { g1 = out.items(); assert(g1 =~= it0 + presolve_part(*data)); }
+//@after_stmt 9
+    proof { g2 = out.items(); assert(g2 =~= g1 + problem_part(*data, cs)); }
+//@after_stmt 15
+    proof { g3 = out.items(); assert(g3 =~= g2 + cones_part(cs)); }
+//@after_stmt 16
+    proof { g4 = out.items(); assert(g4 =~= g3 + seq![line(""@, seq![])]); }
 //@post
-    proof { assert(self.stream.items() =~= old(self).stream.items() + configuration_items(*settings, *data, cones.cones@, old(self).linsolver)); }
+    proof {
+        let g5 = self.stream.items();
+        assert(g5 == g4 + settings_block(*settings, ls));
+        assert(g5 =~= it0 + configuration_items(*settings, *data, cs, ls));
+    }
 //@end
 
 //@fn file=src/solver/implementations/default/info_print.rs in="impl<T> InfoPrint<T> for DefaultInfo<T>" name=print_status_header rules=R1,R2,R1f,wfmt ret=r
